@@ -350,6 +350,8 @@ func (r *c01Run) exec(step int, hb *c01Brk, st c01Step) bool {
 			reqErr = c01ErrBenign
 		case "uerr":
 			reqErr = c01ErrBad
+		case "unavail": // the protected function itself fails with the breaker's sentinel (e.g. a nested open breaker)
+			reqErr = ErrServiceUnavailable
 		case "panic":
 			panic(pv)
 		}
@@ -448,7 +450,19 @@ func (r *c01Run) exec(step int, hb *c01Brk, st c01Step) bool {
 	if !must {
 		r.stats.record(p, false)
 	}
-	if ranFb > 0 || (!panicked && ret == ErrServiceUnavailable) {
+	if st.Out == "unavail" {
+		// req ran, so the call was admitted: the fallback is for rejected calls only and
+		// the caller must see req's own error
+		if ranFb > 0 {
+			m.Violate("C01:admit:fallback-ran:req-returned-unavailable", r.desc(step), "%s: req ran and returned ErrServiceUnavailable itself; the fallback ran %d times (with %v) and the caller got %v", st.Kind, ranFb, fbErr, ret)
+			return false
+		}
+		if !panicked && ret != ErrServiceUnavailable {
+			m.Violate("C01:admit:req-error-replaced:req-returned-unavailable", r.desc(step), "%s: req ran and returned ErrServiceUnavailable, the caller got %v", st.Kind, ret)
+			return false
+		}
+	}
+	if ranFb > 0 || (!panicked && ret == ErrServiceUnavailable && reqErr != ErrServiceUnavailable) {
 		m.Violate("C01:reject:req-ran", r.desc(step), "%s ran the protected function and then treated the call as rejected (fallback ran %d times with %v, returned %v)", st.Kind, ranFb, fbErr, ret)
 		return false
 	}
@@ -641,6 +655,16 @@ func c01GenHistory(r *rand.Rand) []c01Step {
 					}
 				}
 			}
+			if st.Kind != "allow" && st.Kind != "resolve" && r.Intn(12) == 0 {
+				if bad {
+					st.Out = "unavail"
+					if (st.Kind == "doacc" || st.Kind == "dofbacc") && r.Intn(4) == 0 {
+						st.Pred = "all" // acceptable error under an accept-all predicate
+					}
+				} else if st.Kind == "doacc" || st.Kind == "dofbacc" {
+					st.Out, st.Pred = "unavail", "all"
+				}
+			}
 			if r.Intn(25) == 0 {
 				st.In = c01Advances[r.Intn(6)]
 			}
@@ -688,7 +712,7 @@ func c01SetupClock(m *vk.M) func() {
 
 // TestVerifC01Model: seeded histories against the reference model.
 func TestVerifC01Model(t *testing.T) {
-	m := vk.New(t, "C01", "seeded histories of 200-2000 steps on 3 breakers (New + 2 registry names): Do/DoWithAcceptable/DoWithFallback/DoWithFallbackAcceptable/Allow(+deferred Accept/Reject), direct and via the package-level named forms; outcomes ok / acceptable err / unacceptable err / panic under predicates std/all/none; virtual-clock advances {0,1ms,249/250/251ms,1s,9.74-9.76s,9.99/10/10.01s,1h,uniform,bucket edge -1ns/exact} before and inside calls; model of 40x250ms buckets compared with history() before and after every step; non-trivial = at least one rejection observed in the history")
+	m := vk.New(t, "C01", "seeded histories of 200-2000 steps on 3 breakers (New + 2 registry names): Do/DoWithAcceptable/DoWithFallback/DoWithFallbackAcceptable/Allow(+deferred Accept/Reject), direct and via the package-level named forms; outcomes ok / acceptable err / unacceptable err / req itself returning ErrServiceUnavailable / panic under predicates std/all/none; virtual-clock advances {0,1ms,249/250/251ms,1s,9.74-9.76s,9.99/10/10.01s,1h,uniform,bucket edge -1ns/exact} before and inside calls; model of 40x250ms buckets compared with history() before and after every step; non-trivial = at least one rejection observed in the history")
 	defer m.Done()
 	defer c01SetupClock(m)()
 	n := vk.N(300, 20000)
@@ -804,7 +828,7 @@ func TestVerifC01TripRecover(t *testing.T) {
 				if st.Kind == "allow" && out == "aerr" {
 					st.Out = "ok"
 				}
-				if st.Kind == "allow" && out == "panic" {
+				if st.Kind == "allow" && (out == "panic" || out == "unavail") {
 					st.Out = "uerr"
 				}
 				if (st.Kind == "do" || st.Kind == "dofb") && out == "aerr" {
@@ -836,7 +860,7 @@ func TestVerifC01TripRecover(t *testing.T) {
 					m.Inconclusive("case %d: 500 failures not reached within 400000 attempts (window accepts=%d total=%d)", idx, acc, tot)
 					return
 				}
-				if !run.exec(step, hb, mk([]string{"uerr", "uerr", "panic"}[br.Intn(3)])) {
+				if !run.exec(step, hb, mk([]string{"uerr", "uerr", "panic", "unavail"}[br.Intn(4)])) {
 					return
 				}
 				step++
